@@ -1,6 +1,6 @@
 SPECIFICATION MCSpec
 CONSTANTS MaxLen = 3
-          MaxId = 4
+          MaxId = 3
           NFilters = 4
           MaxQueries = 1
           HistLen = 0
